@@ -18,11 +18,14 @@ import (
 
 // getValues asks a solver for the values of the given terms in a model of the
 // negated obligation.
-func (r *Report) getValues(ob *Obligation, terms []string) (map[string]string, string) {
+func (r *Report) getValues(ob *Obligation, terms []string, extra ...string) (map[string]string, string) {
 	if len(terms) == 0 {
 		return map[string]string{}, ""
 	}
 	q := ob.query(r.prelude, false, true)
+	if len(extra) > 0 {
+		q = strings.Replace(q, "(check-sat)\n", "(assert "+and(extra...)+")\n(check-sat)\n", 1)
+	}
 	q += "(get-value (" + strings.Join(terms, " ") + "))\n"
 	for _, sp := range []solverSpec{solvers[0], solvers[1]} {
 		res := runSolver(context.Background(), sp, r.tmp, q, 10)
@@ -150,7 +153,34 @@ func (r *Report) buildInputs(ob *Obligation) ([]replayInput, map[string]string, 
 			return nil, nil, "", false
 		}
 	}
-	vals, out1 := r.getValues(ob, terms)
+	// prefer small inputs: bound the lengths first
+	var lens []string
+	for _, p := range fn.Params {
+		switch v := c.vals[p].(type) {
+		case VStr:
+			lens = append(lens, v.Len)
+		case VSlice:
+			lens = append(lens, v.Cap)
+		}
+	}
+	var vals map[string]string
+	var out1 string
+	var bound []string
+	for _, lim := range []int{6, 24, 128, 0} {
+		bound = nil
+		if lim > 0 {
+			for _, l := range lens {
+				bound = append(bound, le(l, fmt.Sprint(lim)))
+			}
+			if len(bound) == 0 {
+				continue
+			}
+		}
+		vals, out1 = r.getValues(ob, terms, bound...)
+		if vals != nil {
+			break
+		}
+	}
 	if vals == nil {
 		return nil, nil, "", false
 	}
@@ -181,7 +211,19 @@ func (r *Report) buildInputs(ob *Obligation) ([]replayInput, map[string]string, 
 			}
 		}
 	}
-	cvals, _ := r.getValues(ob, append(append([]string{}, terms...), cterms...))
+	// pin the scalars found in pass 1 so that both passes describe one model
+	var pin []string
+	for _, t := range terms {
+		v := vals[t]
+		if v == "true" || v == "false" {
+			continue
+		}
+		if strings.HasPrefix(v, "-") {
+			v = "(- " + v[1:] + ")"
+		}
+		pin = append(pin, eq(t, v))
+	}
+	cvals, _ := r.getValues(ob, append(append([]string{}, terms...), cterms...), pin...)
 	if cvals == nil {
 		return nil, nil, "", false
 	}
@@ -306,6 +348,8 @@ func (r *Report) replayTest(ob *Obligation, ins []replayInput, imports map[strin
 }
 
 // runReplayTest runs an in-package test through -overlay; nothing is written into the repo.
+var helpersPath = "/verif/contracts/replay_helpers.go"
+
 func runReplayTest(repo, src string) (bool, string) {
 	dir, err := os.MkdirTemp("", "govc-replay")
 	if err != nil {
@@ -314,7 +358,11 @@ func runReplayTest(repo, src string) (bool, string) {
 	defer os.RemoveAll(dir)
 	testFile := filepath.Join(dir, "verif_replay_test.go")
 	os.WriteFile(testFile, []byte(src), 0o644)
-	ov := map[string]any{"Replace": map[string]string{filepath.Join(repo, "larking", "zz_verif_replay_test.go"): testFile}}
+	repl := map[string]string{filepath.Join(repo, "larking", "zz_verif_replay_test.go"): testFile}
+	if _, err := os.Stat(helpersPath); err == nil {
+		repl[filepath.Join(repo, "larking", "zz_verif_helpers_test.go")] = helpersPath
+	}
+	ov := map[string]any{"Replace": repl}
 	ovData, _ := json.Marshal(ov)
 	ovFile := filepath.Join(dir, "overlay.json")
 	os.WriteFile(ovFile, ovData, 0o644)
